@@ -394,7 +394,7 @@ func fenceMatchNearbys(
 			if o.ID() == obj.ID() {
 				return true // skip self
 			}
-			meters := o.Geo().Distance(o.Geo())
+			meters := obj.Geo().Distance(o.Geo())
 			if meters > fence.roam.meters {
 				return true // skip outside radius
 			}
